@@ -344,6 +344,10 @@ def w_ftables_edit(job):
             'sample': {'filter': name, 'q': q, 'padding': padding, 'threshold': t, 'strings': len(S)}}
 
 
+def other_spelling(mask):
+    return ' '.join('w%03d' % i for i in range(mask.bit_length()) if mask >> i & 1)
+
+
 def w_ftables_reassigned(job):
     """A filter object used once, then its documented `threshold` attribute reassigned: filter_tables,
     filter_candset and filter_pair must not drop any pair that meets the *current* threshold."""
@@ -378,6 +382,11 @@ def w_ftables_reassigned(job):
                     bad = 'filter_tables'
                 elif lib(f.filter_pair, lvals[i], rvals[j]):
                     bad = 'filter_pair'
+                if not bad:
+                    # the same object on the same token sets written with tokens it has never seen in a table
+                    x2, y2 = other_spelling(a), other_spelling(b)
+                    if lib(f.filter_pair, x2, y2):
+                        bad = 'filter_pair (after filter_tables on other tables; here left=%r right=%r)' % (x2, y2)
                 if bad:
                     nviol += 1
                     if len(viol) < MAXV:
